@@ -4,6 +4,7 @@ import (
 	"fmt"
 	"go/types"
 	"sort"
+	"strconv"
 	"strings"
 
 	"golang.org/x/tools/go/ssa"
@@ -199,7 +200,7 @@ func (ex *Exec) Fresh(st *State, t types.Type, name string) Val {
 	case *types.Basic:
 		s, ok := SortOf(t)
 		if !ok {
-			return Opaque{Typ: t, Why: "basic kind not modelled"}
+			return Opaque{Typ: t, Why: "basic kind not modelled", ID: ex.Ctx.Fresh(name+"_id", "Ref")}
 		}
 		c := ex.Ctx.Fresh(name, s)
 		if s == "Int" && u.Info()&types.IsUnsigned != 0 {
@@ -657,6 +658,16 @@ func (ex *Exec) Store(st *State, p Ptr, t types.Type, v Val) {
 		}
 		if a, isArr := c.(ArrContent); isArr && len(p.Path) == 1 {
 			a.Arr = smt.Sto(a.Arr, p.Path[0].Idx, ex.scalar(st, v)) // element stores go through scalar (promotion)
+			ne := map[int64]Val{}
+			for k, ev := range a.Elems {
+				ne[k] = ev
+			}
+			if n, err := strconv.ParseInt(p.Path[0].Idx, 10, 64); err == nil {
+				ne[n] = v
+			} else {
+				ne = nil
+			}
+			a.Elems = ne
 			st.Mem[p.Obj] = a
 			return
 		}
